@@ -103,7 +103,7 @@ def oracle(case, tr: C.Trace, ref_eff: list | None = None) -> tuple[list[Violati
     info = {"stops": 0, "restarts": 0, "alive_at_stop": False, "timed_at_stop": False, "sim_at_stop": False,
             "paused_at_stop": False, "holding_at_stop": False, "error_at_stop": False, "overlap_alive": False,
             "restart_compared": 0, "compared_ticks": 0, "derived_suppressed": 0, "uod_in_runlog": 0, "callback_in_begin_tick": False,
-            "stop_kinds": []}
+            "stop_kinds": [], "tick_raised": 0}
 
     def viol(sig, msg):
         if not any(v.sig == sig for v in out):
@@ -284,9 +284,7 @@ def oracle(case, tr: C.Trace, ref_eff: list | None = None) -> tuple[list[Violati
                             break
                         if got[k][1]:
                             first_seen = True
-    for t in tr.ticks:
-        if t.raised is not None:
-            viol("tick-raised:%s" % type(t.raised).__name__, "tick %d raised %r" % (t.no, t.raised))
+    info["tick_raised"] = sum(1 for t in tr.ticks if t.raised is not None)   # judged by C13, only classified here
     return out, info
 
 
@@ -352,6 +350,8 @@ def run_shard(col, cfg):
                     classes.append("method-has-failing-or-rejected-command")
                 if base["pre"]:
                     classes.append("earlier-requests")
+                if info["tick_raised"]:
+                    classes.append("tick-raised(judged-by-C13)")
                 col.count("count:uod-instances-checked-in-runlog", info["uod_in_runlog"])
                 col.count("count:restart-ticks-compared", info["compared_ticks"])
                 if info["derived_suppressed"]:
